@@ -48,7 +48,7 @@ void harness(void) {
   if (M < SIZE) { ASSERT(rc == 1, "a strict prefix of a valid image is rejected with an exception"); }
   else {
     ASSERT(rc == 0, "the full image deserializes");
-    for (int i = 0; i < 13; i++) { ASSERT(a.f[i] == b.f[i] || (i == 9 || i == 10 || i == 12) , "restored sketch: same getters, retained items and weights"); OBSERVE(b.f[i]); }
+    for (int i = 0; i < 14; i++) { ASSERT(a.f[i] == b.f[i] || (i == 9 || i == 10 || i == 12) , "restored sketch: same getters, retained items and weights"); OBSERVE(b.f[i]); }
     ASSERT(a.f[9] == b.f[9] && a.f[10] == b.f[10] && a.f[9] == (uint64_t)SIZE, "restored sketch re-serializes to the same bytes");
     for (int i = 0; i < HEADER; i++) ASSERT(img[i] == (uint8_t)(0xA5 ^ i) || img[i] == 0, "header bytes are reserved (left to the caller)");
   }
